@@ -116,6 +116,31 @@ func messageCaseProblem(c *mcase) (problem string, converted bool, accepts int) 
 	if pv, st := mon.Guard(func() { opts, err = validate.PolicyToOptions(msg) }); pv != "" {
 		return "PolicyToOptions panics: " + pv + "\n" + st, false, 0
 	}
+	defer func() {
+		// the same message converted a second time, after everything above, must give options with the same verdicts
+		if problem != "" || !converted || msg == nil {
+			return
+		}
+		var again *validate.Options
+		var err2 error
+		if pv, st := mon.Guard(func() { again, err2 = validate.PolicyToOptions(msg) }); pv != "" {
+			problem = "second PolicyToOptions of the same message panics: " + pv + "\n" + st
+			return
+		}
+		if err2 != nil || again == nil {
+			problem = fmt.Sprintf("the same message converts the first time and fails the second time: %v", err2)
+			return
+		}
+		for qi, qb := range c.Quotes {
+			q, _ := ref.ParseQuote(qb)
+			m := mon.BuildMessage(q)
+			var e1, e2 error
+			if pv, _ := mon.Guard(func() { e1 = validate.TdxQuote(m, opts); e2 = validate.TdxQuote(m, again) }); pv == "" && (e1 == nil) != (e2 == nil) {
+				problem = fmt.Sprintf("quote %d: verdict under the options of the first conversion (accepted=%v) differs from the verdict under the options of a second conversion of the same message value (accepted=%v, %v): the first conversion or the validations changed what the message says", qi, e1 == nil, e2 == nil, e2)
+				return
+			}
+		}
+	}()
 	mf := mustFail(eff)
 	if err != nil {
 		return "", false, 0 // failing is always allowed
@@ -222,7 +247,7 @@ func c14(x *mon.Ctx) {
 			add("svn/minimum_pce_svn", fmt.Sprintf("%d#%d", v, rep), ref.Policy{MinPceSvn: v}, quotes, nil)
 		}
 		for n := 0; n <= 5; n++ {
-			for _, comp := range []string{"full-equal", "all-empty", "one-short", "one-long", "one-differs", "mixed"} {
+			for _, comp := range []string{"full-equal", "all-empty", "one-short", "one-long", "one-plus-256", "one-differs", "mixed"} {
 				var l [][]byte
 				for i := 0; i < n; i++ {
 					v := append([]byte{}, q.Rtmrs[i%4]...)
@@ -236,6 +261,10 @@ func c14(x *mon.Ctx) {
 					case "one-long":
 						if i == 0 {
 							v = append(v, 1)
+						}
+					case "one-plus-256":
+						if i == n-1 {
+							v = append(v, make([]byte, 256)...)
 						}
 					case "one-differs":
 						if i == n-1 {
@@ -252,7 +281,7 @@ func c14(x *mon.Ctx) {
 			}
 		}
 		for n := 0; n <= 4; n++ {
-			for _, comp := range []string{"none", "first", "last", "short-entry", "long-entry", "empty-entry"} {
+			for _, comp := range []string{"none", "first", "last", "short-entry", "long-entry", "empty-entry", "entry-plus-256", "repeated-other", "repeated-match", "other-match-other-again"} {
 				var l [][]byte
 				for i := 0; i < n; i++ {
 					v := make([]byte, 48)
@@ -277,6 +306,22 @@ func c14(x *mon.Ctx) {
 					case "empty-entry":
 						if i == 0 {
 							v = []byte{}
+						}
+					case "entry-plus-256":
+						if i == n-1 {
+							v = append(append([]byte{}, q.MrTd...), make([]byte, 256)...)
+						}
+					case "repeated-other": // the same (non-matching) value in every position
+						if i > 0 {
+							v = append([]byte{}, l[0]...)
+						}
+					case "repeated-match":
+						v = append([]byte{}, q.MrTd...)
+					case "other-match-other-again":
+						if i == 1 {
+							v = append([]byte{}, q.MrTd...)
+						} else if i > 1 {
+							v = append([]byte{}, l[0]...)
 						}
 					}
 					l = append(l, v)
